@@ -62,6 +62,14 @@ def _struct(root):
     return repr(_full_struct(root))
 
 
+def _num(v):
+    from fractions import Fraction
+    try:
+        return str(Fraction(str(v)) if not isinstance(v, (int, float, Fraction)) else Fraction(v))
+    except (ValueError, TypeError, ZeroDivisionError):
+        return repr(v)
+
+
 def _apply(it, repo, cur, step, checks, label):
     """Apply one step to `cur`; returns the object the history continues with."""
     name, args, mode = step[:3]
@@ -107,7 +115,7 @@ def run_history(repo: Repo, steps) -> Tuple[str, List[str]]:
                     cur = it.construct(ClassRef("svg", "SVG"), [tree], {})
             # what the object says about itself, then its serialisation
             shapes = it.call(method_of(repo, "svg", "SVG", "shapes"), [cur], {})
-            said = tuple((sh.cls.name, repr(sh.f.get("d")), repr(sh.f.get("fill")), repr(sh.f.get("opacity"))) for sh in it.iterate(shapes) if isinstance(sh, Rec))
+            said = tuple((sh.cls.name, repr(sh.f.get("d")), repr(sh.f.get("fill")), _num(sh.f.get("opacity"))) for sh in it.iterate(shapes) if isinstance(sh, Rec))
             return (said, it.call(method_of(repo, "svg", "SVG", "toetree"), [cur], {}))
         outs = run(repo, body, lambda: ([make_svg(doc())], {}), setup_extra=_bbox_setup, max_paths=32, area=_area)
         res = []
@@ -221,8 +229,6 @@ def check_histories(repo: Repo, rep: Report, rule: str, ret_rule: str):
     svg = repo["svg"]
     F = "svg.SVG"
     hs = histories(rep.tier if rep.tier in ("quick", "thorough") else "quick")
-    if rep.tier == "selftest":
-        hs = hs[::2]
     forms = [("forms", (n, a, "copy")) for n, a, _ in EDITORS] + [("forms", ("topicosvg", (), "copy", (("drop_unsupported", True),))), ("forms", ("topicosvg", (), "copy", (("ndigits", 1),))),
                                                                ("forms", ("topicosvg", (), "copy", (("allow_text", True),)))]
     hs = list(hs) + forms
